@@ -3,10 +3,14 @@ C07 — pressure-dependent demand follows the documented pressure–demand curve
 
 Everything below is about definitions REGENERATED from the current source on every run (Gen/RowsC07.lean):
 the `m.pdd[j]` rows of a zoo network, `cubic_spline`, the spline end data computed by
-`pdd_poly_coeffs_param.build`, and `pdd_constants`.  Theorems quantify over every real pressure, every
-`Pmin, Preq` (with non-overlapping smoothing bands), every exponent in (0,1], every requested demand ≥ 0.
+`pdd_poly_coeffs_param.build` / `pnom_param.build` (symbolic execution, every outcome of every comparison explored),
+`pdd_constants`, and the ModelUpdater registrations.  Theorems quantify over every real pressure, every `Pmin < Preq`
+the build accepts, every exponent in (0,1], every requested demand ≥ 0.  The model follows the REPAIRED code
+(fixes/C07-1-pressure-exponent-updater.patch, fixes/C07-2-pdd-band-overlap.patch): the band width of a junction is
+`min(δ, (Preq − Pmin)/2)`, so the two smoothing bands never overlap and no band hypothesis is needed.
 -/
 import WntrModel.Lemmas.RowsSplineGen
+import WntrModel.Lemmas.RowsNorm
 import Mathlib.Analysis.Convex.SpecificFunctions.Basic
 
 set_option linter.unusedSimpArgs false
@@ -16,11 +20,56 @@ open Wntr.Aml
 
 /-! ### 1. the generated rows are instances of the parametric row; per-junction overrides -/
 
-/-- `m.pdd[j]` of every zoo junction IS `pddRow` at the junction's own leaf indices with the exponent chosen by the
-documented rule (own value if set, else global option), `m.pmin[j]`/`m.pnom[j]` carry the value chosen by the same
-rule, for all 8 own/None combinations; an isolated junction has no row. -/
+/-- `m.pdd[j]` of every zoo junction is EQUIVALENT (`Norm.rowSem`: equal as polynomials with rational coefficients over atoms,
+atoms and branch conditions compared semantically too, branch by branch) to `pddRow` at the junction's own leaf indices with the
+exponent chosen by the documented rule (own value if set, else global option); `m.pmin[j]`/`m.pnom[j]` carry the value chosen
+by the same rule and `m.pdd_delta[j] = min(δ, (Preq−Pmin)/2)`, for all 8 own/None combinations and a junction with
+`Preq − Pmin < 2δ`; an isolated junction has no row. -/
 theorem gen_rows_are_pddRow :
     GenC07.zoo.all (fun z => z.ok GenC07.pddDelta GenC07.pddSlope GenC07.globPmin GenC07.globPnom GenC07.globExp) = true := by
+  decide +kernel
+
+/-- the standard leaf numbering used by the sensitivity examples -/
+def ix0 : PddIx :=
+  { head := 0, demand := 1, expected := 0, pmin := 1, pnom := 2, elev := 3, delta := 12,
+    a1 := 4, b1 := 5, c1 := 6, d1 := 7, a2 := 8, b2 := 9, c2 := 10, d2 := 11 }
+
+/-- the PDD row written differently: pressure as `h − pmin − elev` resp. `(h − elev)` re-ordered, the cubics in ascending
+powers with `x*x*x`, the constant first in the last branch; `sgn`, `ub2`, `shift2`, `swap` switch on one defect each -/
+def pddRowAlt (ix : PddIx) (slope e sgn ub2 : Rat) (shift2 swap : Bool) : Expr :=
+  let h : Expr := .var ix.head
+  let d : Expr := .var ix.demand
+  let D : Expr := .param ix.expected
+  let pmin : Expr := .param (if swap then ix.pnom else ix.pmin)
+  let pnom : Expr := .param (if swap then ix.pmin else ix.pnom)
+  let elev : Expr := .param ix.elev
+  let delta : Expr := .param ix.delta
+  let p := eSub h elev
+  let q := eSub (eSub h pmin) elev          -- p − pmin, other order
+  let x := if shift2 then q else p
+  let cub (a b c dd y : Expr) : Expr := eAdd (eAdd (eAdd dd (eMul y c)) (eMul (eMul y y) b)) (eMul (eMul (eMul y y) y) a)
+  condExpr [
+    (.ineq q none (some 0), eSub d (eMul (eMul (.const (sgn * slope)) q) D)),
+    (.ineq (eSub q delta) none (some ub2), eSub d (eMul (cub (.param ix.a1) (.param ix.b1) (.param ix.c1) (.param ix.d1) p) D)),
+    (.ineq (eSub (eAdd delta p) pnom) none (some 0),
+      eSub d (eMul D (ePow (eDiv q (eAdd (.un .neg pmin) pnom)) (.const e)))),
+    (.ineq (eSub (eSub h pnom) elev) none (some 0),
+      eSub d (eMul D (cub (.param ix.a2) (.param ix.b2) (.param ix.c2) (.param ix.d2) x))),
+    (.const 1, eSub d (eAdd D (eMul (eMul D (.const slope)) (eSub p pnom))))]
+
+/-- **the comparison is semantic and sensitive**: the re-ordered / re-bracketed row is accepted; a flipped sign of the slope
+term, a moved branch bound, the upper cubic evaluated at `p − Pmin` (seeded change C07-3), `Pmin`/`Preq` exchanged, another
+exponent or another smoothing slope are each rejected -/
+theorem rowSem_is_sensitive :
+    let s : Rat := GenC07.pddSlope
+    let e : Rat := 5 / 8
+    Norm.rowSem (pddRowAlt ix0 s e 1 0 false false) (pddRow ix0 s e) = true ∧
+    Norm.rowSem (pddRowAlt ix0 s e (-1) 0 false false) (pddRow ix0 s e) = false ∧
+    Norm.rowSem (pddRowAlt ix0 s e 1 (1 / 100) false false) (pddRow ix0 s e) = false ∧
+    Norm.rowSem (pddRowAlt ix0 s e 1 0 true false) (pddRow ix0 s e) = false ∧
+    Norm.rowSem (pddRowAlt ix0 s e 1 0 false true) (pddRow ix0 s e) = false ∧
+    Norm.rowSem (pddRow ix0 s (e + 1 / 8)) (pddRow ix0 s e) = false ∧
+    Norm.rowSem (pddRow ix0 (2 * s) e) (pddRow ix0 s e) = false := by
   decide +kernel
 
 /-- all 8 override combinations (own minimum_pressure?, required_pressure?, pressure_exponent?) occur, non-isolated -/
@@ -49,11 +98,12 @@ theorem pdd_per_junction_override (own : Option Rat) (glob : Rat) :
 
 /-! ### 2. what a row evaluates to (any leaf values, any junction) -/
 
-/-- residual of the row = demand − requested · (delivered fraction at the gauge pressure `head − elevation`) -/
-theorem pddRow_eval (env : Env ℝ) (ix : PddIx) (delta slope e : ℚ) :
-    eval realOps env (pddRow ix delta slope e) =
+/-- residual of the row = demand − requested · (delivered fraction at the gauge pressure `head − elevation`), the band width
+being the value of the junction's `pdd_delta` parameter -/
+theorem pddRow_eval (env : Env ℝ) (ix : PddIx) (slope e : ℚ) :
+    eval realOps env (pddRow ix slope e) =
       env.var ix.demand - env.param ix.expected *
-        pddFrac realOps (env.param ix.pmin) (env.param ix.pnom) (delta : ℝ) (slope : ℝ) (e : ℝ)
+        pddFrac realOps (env.param ix.pmin) (env.param ix.pnom) (env.param ix.delta) (slope : ℝ) (e : ℝ)
           (env.param ix.a1, env.param ix.b1, env.param ix.c1, env.param ix.d1)
           (env.param ix.a2, env.param ix.b2, env.param ix.c2, env.param ix.d2)
           (env.var ix.head - env.param ix.elev) := by
@@ -62,20 +112,119 @@ theorem pddRow_eval (env : Env ℝ) (ix : PddIx) (delta slope e : ℚ) :
     decide_eq_true_eq]
   split_ifs <;> ring
 
+/-- **every generated row means the curve**: for every junction of the zoo that has a row, at EVERY point (any leaf values),
+the residual of the row the code built is `demand − requested · fraction(head − elevation)` with the junction's own
+`pmin`, `pnom`, `pdd_delta` and spline-coefficient parameters and the exponent chosen by the override rule
+(soundness of the semantic comparison, `Norm.rowSem_sound`) -/
+theorem gen_rows_eval (env : Env ℝ) (z : PddZoo) (hz : z ∈ GenC07.zoo) (r : Expr) (hr : z.row = some r) :
+    eval realOps env r =
+      env.var z.ix.demand - env.param z.ix.expected *
+        pddFrac realOps (env.param z.ix.pmin) (env.param z.ix.pnom) (env.param z.ix.delta) (GenC07.pddSlope : ℝ)
+          ((choose z.ownExp GenC07.globExp : ℚ) : ℝ)
+          (env.param z.ix.a1, env.param z.ix.b1, env.param z.ix.c1, env.param z.ix.d1)
+          (env.param z.ix.a2, env.param z.ix.b2, env.param z.ix.c2, env.param z.ix.d2)
+          (env.var z.ix.head - env.param z.ix.elev) := by
+  have hok := List.all_eq_true.1 gen_rows_are_pddRow z hz
+  unfold PddZoo.ok at hok
+  by_cases hi : z.isolated = true
+  · simp only [hi, if_true, hr] at hok; exact absurd hok (by simp)
+  · simp only [hi, Bool.false_eq_true, if_false, Bool.and_eq_true, hr, Norm.rowSemOpt] at hok
+    rw [Norm.rowSem_sound env _ _ hok.1.1.1, pddRow_eval]
+
 /-! ### 3. the curve with the coefficients the code computes -/
 
-/-- coefficients of the lower-band polynomial: `cubic_spline(*pdd_poly_coeffs_param inputs)`, both generated -/
-noncomputable def pddCo1 (pmin pnom δ s e : ℝ) : ℝ × ℝ × ℝ × ℝ :=
-  let i := GenC07.pddSplineIn1 realOps pmin pnom δ s e
+/-- the documented end data of the lower-band spline for band width `d`: from `(Pmin, 0)` with slope `slope` to
+`(Pmin+d, (d/R)^e)` with the slope of the power law there -/
+noncomputable def specIn1 (pmin pnom d s e : ℝ) : ℝ × ℝ × ℝ × ℝ × ℝ × ℝ :=
+  (pmin, pmin + d, 0, (d / (pnom - pmin)) ^ e, s, e * (d / (pnom - pmin)) ^ (e - 1) / (pnom - pmin))
+
+/-- upper band: from `(Preq−d, ((R−d)/R)^e)` with the power law's slope to `(Preq, 1)` with slope `slope` -/
+noncomputable def specIn2 (pmin pnom d s e : ℝ) : ℝ × ℝ × ℝ × ℝ × ℝ × ℝ :=
+  (pnom - d, pnom, ((pnom - d - pmin) / (pnom - pmin)) ^ e, 1,
+   e * ((pnom - d - pmin) / (pnom - pmin)) ^ (e - 1) / (pnom - pmin), s)
+
+/-- band width of the repaired code over ℝ -/
+noncomputable def effDeltaR (δ pmin pnom : ℝ) : ℝ := if δ ≤ (pnom - pmin) / 2 then δ else (pnom - pmin) / 2
+
+/-- **what `pdd_poly_coeffs_param.build` computes** (generated decision tree, all paths): it refuses `Preq ≤ Pmin`; otherwise
+it stores the band width `min(δ, (Preq−Pmin)/2)` and calls `cubic_spline` with the documented end data for THAT width -/
+theorem pddPolyBuild_spec (pmin pnom δ s e : ℝ) :
+    GenC07.pddPolyBuild realOps pmin pnom δ s e =
+      if pnom ≤ pmin then none
+      else some (effDeltaR δ pmin pnom, specIn1 pmin pnom (effDeltaR δ pmin pnom) s e,
+                 specIn2 pmin pnom (effDeltaR δ pmin pnom) s e) := by
+  simp only [GenC07.pddPolyBuild, realOps_le, realOps_add, realOps_sub, realOps_mul, realOps_div, realOps_pow, realOps_ofRat,
+    decide_eq_true_eq, Rat.cast_ofNat, Rat.cast_zero, Rat.cast_one]
+  by_cases h1 : pnom ≤ pmin
+  · simp only [h1, if_true]
+  · simp only [h1, if_false]
+    by_cases h2 : δ ≤ (pnom - pmin) / 2
+    · simp only [h2, if_true, effDeltaR, specIn1, specIn2, add_sub_cancel_left, mul_one]
+    · simp only [h2, if_false, effDeltaR, specIn1, specIn2, add_sub_cancel_left, mul_one]
+
+/-- **what `pnom_param.build` accepts** (generated): it refuses `Preq ≤ δ`, else stores the required pressure unchanged -/
+theorem pnomBuild_spec (pnom δ : ℝ) :
+    GenC07.pnomBuild realOps pnom δ = if pnom ≤ δ then none else some pnom := by
+  simp only [GenC07.pnomBuild, realOps_le, decide_eq_true_eq]
+
+theorem effDeltaR_pos {δ pmin pnom : ℝ} (hδ : 0 < δ) (h : pmin < pnom) : 0 < effDeltaR δ pmin pnom := by
+  unfold effDeltaR; split_ifs <;> linarith
+
+/-- the bands never overlap: twice the band width fits between `Pmin` and `Preq` -/
+theorem effDeltaR_band {δ pmin pnom : ℝ} : 2 * effDeltaR δ pmin pnom ≤ pnom - pmin := by
+  unfold effDeltaR; split_ifs with h <;> linarith
+
+/-- the band is never wider than the shipped `δ`, and IS `δ` whenever `Preq − Pmin ≥ 2δ` -/
+theorem effDeltaR_le {δ pmin pnom : ℝ} : effDeltaR δ pmin pnom ≤ δ ∧ (2 * δ ≤ pnom - pmin → effDeltaR δ pmin pnom = δ) := by
+  unfold effDeltaR
+  constructor
+  · split_ifs with h <;> linarith
+  · intro h; rw [if_pos (by linarith)]
+
+/-- the Rat model `effDelta` (compared with the zoo's `m.pdd_delta[j]` values) is the same function -/
+theorem effDelta_cast (δ pmin pnom : ℚ) : ((effDelta δ pmin pnom : ℚ) : ℝ) = effDeltaR δ pmin pnom := by
+  unfold effDelta effDeltaR
+  have : (δ ≤ (pnom - pmin) / 2) ↔ ((δ : ℝ) ≤ ((pnom : ℝ) - pmin) / 2) := by
+    rw [← Rat.cast_sub, show ((2 : ℝ)) = ((2 : ℚ) : ℝ) by norm_num, ← Rat.cast_div, Rat.cast_le]
+  by_cases h : δ ≤ (pnom - pmin) / 2
+  · rw [if_pos h, if_pos (this.1 h)]
+  · rw [if_neg h, if_neg (fun hh => h (this.2 hh))]; push_cast; ring
+
+/-- coefficients of the lower-band polynomial for band width `d`: generated `cubic_spline` on the documented end data
+(which is what the generated `pdd_poly_coeffs_param.build` passes, `pddPolyBuild_spec`) -/
+noncomputable def pddCo1 (pmin pnom d s e : ℝ) : ℝ × ℝ × ℝ × ℝ :=
+  let i := specIn1 pmin pnom d s e
   GenC07.cubicSpline realOps i.1 i.2.1 i.2.2.1 i.2.2.2.1 i.2.2.2.2.1 i.2.2.2.2.2
 
-noncomputable def pddCo2 (pmin pnom δ s e : ℝ) : ℝ × ℝ × ℝ × ℝ :=
-  let i := GenC07.pddSplineIn2 realOps pmin pnom δ s e
+noncomputable def pddCo2 (pmin pnom d s e : ℝ) : ℝ × ℝ × ℝ × ℝ :=
+  let i := specIn2 pmin pnom d s e
   GenC07.cubicSpline realOps i.1 i.2.1 i.2.2.1 i.2.2.2.1 i.2.2.2.2.1 i.2.2.2.2.2
 
-/-- delivered fraction of the requested demand as a function of gauge pressure -/
+/-- delivered fraction of the requested demand as a function of gauge pressure, for band width `δ` -/
 noncomputable def pddCurve (pmin pnom δ s e p : ℝ) : ℝ :=
   pddFrac realOps pmin pnom δ s e (pddCo1 pmin pnom δ s e) (pddCo2 pmin pnom δ s e) p
+
+/-- the delivered fraction AS THE CODE COMPUTES IT for a junction with `(Pmin, Preq, e)`: `none` when a build refuses -/
+noncomputable def pddCode (pmin pnom δ s e p : ℝ) : Option ℝ :=
+  match GenC07.pnomBuild realOps pnom δ, GenC07.pddPolyBuild realOps pmin pnom δ s e with
+  | some _, some (d, i1, i2) =>
+    some (pddFrac realOps pmin pnom d s e
+      (GenC07.cubicSpline realOps i1.1 i1.2.1 i1.2.2.1 i1.2.2.2.1 i1.2.2.2.2.1 i1.2.2.2.2.2)
+      (GenC07.cubicSpline realOps i2.1 i2.2.1 i2.2.2.1 i2.2.2.2.1 i2.2.2.2.2.1 i2.2.2.2.2.2) p)
+  | _, _ => none
+
+/-- the code's curve is `pddCurve` at the effective band width, exactly when the parameters are accepted
+(`Preq > Pmin` and `Preq > δ`) -/
+theorem pddCode_eq (pmin pnom δ s e p : ℝ) :
+    pddCode pmin pnom δ s e p =
+      if pnom ≤ δ ∨ pnom ≤ pmin then none else some (pddCurve pmin pnom (effDeltaR δ pmin pnom) s e p) := by
+  unfold pddCode
+  rw [pddPolyBuild_spec, pnomBuild_spec]
+  by_cases h1 : pnom ≤ δ
+  · simp [h1]
+  · by_cases h2 : pnom ≤ pmin
+    · simp [h1, h2]
+    · simp only [h1, h2, if_false, or_self, pddCurve, pddCo1, pddCo2]
 
 /-- **`cubic_spline` interpolates**: value `f1`,`f2` and slope `df1`,`df2` at `x1 ≠ x2` (generated code) -/
 theorem cubicSpline_interpolates {x1 x2 : ℝ} (hne : x1 ≠ x2) (f1 f2 df1 df2 : ℝ) :
@@ -91,18 +240,16 @@ theorem pddCo1_eval {pmin pnom δ s e : ℝ} (hδ : 0 < δ) (p : ℝ) :
     cubic realOps (pddCo1 pmin pnom δ s e) p =
       hermite pmin (pmin + δ) 0 ((δ / (pnom - pmin)) ^ e) s (e * (δ / (pnom - pmin)) ^ (e - 1) / (pnom - pmin)) p := by
   have hne : pmin ≠ pmin + δ := by linarith
-  simp only [pddCo1, GenC07.pddSplineIn1, realOps_add, realOps_sub, realOps_mul, realOps_div, realOps_pow, realOps_ofRat]
+  simp only [pddCo1, specIn1]
   rw [cubicSpline_eq_hermite hne]
-  simp only [add_sub_cancel_left, Rat.cast_zero, Rat.cast_one, mul_one]
 
 theorem pddCo2_eval {pmin pnom δ s e : ℝ} (hδ : 0 < δ) (p : ℝ) :
     cubic realOps (pddCo2 pmin pnom δ s e) p =
       hermite (pnom - δ) pnom (((pnom - δ - pmin) / (pnom - pmin)) ^ e) 1
         (e * ((pnom - δ - pmin) / (pnom - pmin)) ^ (e - 1) / (pnom - pmin)) s p := by
   have hne : pnom - δ ≠ pnom := by linarith
-  simp only [pddCo2, GenC07.pddSplineIn2, realOps_add, realOps_sub, realOps_mul, realOps_div, realOps_pow, realOps_ofRat]
+  simp only [pddCo2, specIn2]
   rw [cubicSpline_eq_hermite hne]
-  simp only [Rat.cast_zero, Rat.cast_one, mul_one]
 
 /-! ### 4. branches -/
 
@@ -356,17 +503,76 @@ theorem shipped_constants_real :
   push_cast at c1 c2 c3 c4 c5
   exact ⟨c1, c2, c3, c4, c5⟩
 
-/-! ### 7. the full statement without the band hypothesis is false (overlapping bands) -/
+/-! ### 7. the full statement, without a band hypothesis, for every parameter set the (repaired) build accepts -/
 
-/-- full-strength monotonicity: ANY `Pmin < Preq` -/
+/-- full-strength monotonicity of the curve THE CODE computes: ANY `Pmin < Preq` -/
 def PddMonotoneFull : Prop :=
-  ∀ pmin pnom e : ℝ, pmin < pnom → 0 < e → e ≤ 1 →
-    ∀ p q, p ≤ q → pddCurve pmin pnom (GenC07.pddDelta : ℝ) (GenC07.pddSlope : ℝ) e p ≤
-                    pddCurve pmin pnom (GenC07.pddDelta : ℝ) (GenC07.pddSlope : ℝ) e q
+  ∀ pmin pnom e : ℝ, pmin < pnom → 0 < e → e ≤ 1 → (GenC07.pddSlope : ℝ) * (pnom - pmin) ≤ 3 * e →
+    ∀ p q, p ≤ q →
+      pddCurve pmin pnom (effDeltaR (GenC07.pddDelta : ℝ) pmin pnom) (GenC07.pddSlope : ℝ) e p ≤
+      pddCurve pmin pnom (effDeltaR (GenC07.pddDelta : ℝ) pmin pnom) (GenC07.pddSlope : ℝ) e q
 
-/-- witness: `Pmin = 1`, `Preq = 1.03` (closer than the smoothing band δ = 0.05), `e = 1`: the curve is ≥ 1.6 at
-`p = Pmin + δ` and ≈ 1 at `p = 2` -/
-theorem pdd_monotone_full_counterexample : ¬ PddMonotoneFull := by
+/-- **monotone, full**: with the band width the repaired code stores, the delivered fraction is non-decreasing over all
+pressures for EVERY `Pmin < Preq` (no hypothesis on `Preq − Pmin`), every exponent in (0,1] -/
+theorem pdd_monotone_full : PddMonotoneFull := by
+  intro pmin pnom e h he0 he1 hs
+  obtain ⟨hδ, hs0, -, -, -⟩ := shipped_constants_real
+  exact pdd_monotone (effDeltaR_pos hδ h) effDeltaR_band he0 he1 hs0 hs
+
+/-- **the documented curve, full**: for every `Pmin < Preq`, exponent in (0,1], requested demand `D ≥ 0`, the delivered demand
+`D · curve` with the code's band width `d = min(δ, (Preq−Pmin)/2) ≤ δ` is
+`D·slope·(p−Pmin)` (zero up to the smoothing slope) at or below `Pmin`, `D·(1+slope·(p−Preq))` (the full demand) at or above
+`Preq`, `D·((p−Pmin)/(Preq−Pmin))^e` between the bands `[Pmin+d, Preq−d]`, between `0` and `D` inside, neighbouring
+branches agree at the four joints, and it is non-decreasing over the whole line -/
+theorem pdd_full_statement (pmin pnom e D : ℝ) (h : pmin < pnom) (he0 : 0 < e) (he1 : e ≤ 1) (hD : 0 ≤ D)
+    (hs : (GenC07.pddSlope : ℝ) * (pnom - pmin) ≤ 3 * e) :
+    let δ := (GenC07.pddDelta : ℝ)
+    let s := (GenC07.pddSlope : ℝ)
+    let d := effDeltaR δ pmin pnom
+    let f := fun p => D * pddCurve pmin pnom d s e p
+    (0 < d ∧ d ≤ δ ∧ 2 * d ≤ pnom - pmin) ∧
+    (∀ p, p ≤ pmin → f p = D * s * (p - pmin)) ∧
+    (∀ p, pnom ≤ p → f p = D * (1 + s * (p - pnom))) ∧
+    (∀ p, pmin + d ≤ p → p ≤ pnom - d → f p = D * ((p - pmin) / (pnom - pmin)) ^ e) ∧
+    (∀ p, pmin ≤ p → p ≤ pnom → 0 ≤ f p ∧ f p ≤ D) ∧
+    (cubic realOps (pddCo1 pmin pnom d s e) pmin = 0 ∧
+     cubic realOps (pddCo1 pmin pnom d s e) (pmin + d) = ((pmin + d - pmin) / (pnom - pmin)) ^ e ∧
+     cubic realOps (pddCo2 pmin pnom d s e) (pnom - d) = ((pnom - d - pmin) / (pnom - pmin)) ^ e ∧
+     cubic realOps (pddCo2 pmin pnom d s e) pnom = 1) ∧
+    (∀ p q, p ≤ q → f p ≤ f q) := by
+  intro δ s d f
+  obtain ⟨hδ, hs0, -, -, -⟩ := shipped_constants_real
+  have hd : 0 < d := effDeltaR_pos hδ h
+  have hband : 2 * d ≤ pnom - pmin := effDeltaR_band
+  have hc := pdd_continuous (pmin := pmin) (pnom := pnom) (s := s) (e := e) hd
+  refine ⟨⟨hd, effDeltaR_le.1, hband⟩, ?_, ?_, ?_, ?_, ⟨hc.1.2, hc.2.1, hc.2.2.1, hc.2.2.2.1⟩, ?_⟩
+  · intro p hp; exact (pdd_branches D hd hband p).1 hp
+  · intro p hp; exact (pdd_branches D hd hband p).2.2 hp
+  · intro p h1 h2; exact (pdd_branches D hd hband p).2.1 h1 h2
+  · intro p h1 h2
+    obtain ⟨a, b⟩ := pdd_between hd hband he0 he1 hs0 hs h1 h2
+    exact ⟨mul_nonneg hD a, by simpa using mul_le_mul_of_nonneg_left b hD⟩
+  · intro p q hpq
+    exact mul_le_mul_of_nonneg_left (pdd_monotone hd hband he0 he1 hs0 hs p q hpq) hD
+
+/-- and this IS the curve the code computes whenever it accepts the parameters (`pddCode_eq`): accepted ⇒ full statement -/
+theorem pdd_code_monotone (pmin pnom e : ℝ) (he0 : 0 < e) (he1 : e ≤ 1)
+    (hs : (GenC07.pddSlope : ℝ) * (pnom - pmin) ≤ 3 * e) (p q : ℝ) (hpq : p ≤ q) (fp fq : ℝ)
+    (h1 : pddCode pmin pnom (GenC07.pddDelta : ℝ) (GenC07.pddSlope : ℝ) e p = some fp)
+    (h2 : pddCode pmin pnom (GenC07.pddDelta : ℝ) (GenC07.pddSlope : ℝ) e q = some fq) : fp ≤ fq := by
+  rw [pddCode_eq] at h1 h2
+  by_cases hr : pnom ≤ (GenC07.pddDelta : ℝ) ∨ pnom ≤ pmin
+  · simp [hr] at h1
+  · simp only [hr, if_false, Option.some.injEq] at h1 h2
+    rw [← h1, ← h2]
+    exact pdd_monotone_full pmin pnom e (lt_of_not_ge (fun hh => hr (Or.inr hh))) he0 he1 hs p q hpq
+
+/-- why the band width must adapt (the UNREPAIRED code used the fixed `δ`): with a fixed band width the curve is NOT monotone
+for `Pmin = 1`, `Preq = 1.03`, `e = 1` (≥ 1.6 at `p = Pmin + δ`, ≈ 1 at `p = 2`) — the recorded defect `pdd-band-overlap` -/
+theorem pdd_fixed_band_counterexample :
+    ¬ (∀ pmin pnom e : ℝ, pmin < pnom → 0 < e → e ≤ 1 →
+        ∀ p q, p ≤ q → pddCurve pmin pnom (GenC07.pddDelta : ℝ) (GenC07.pddSlope : ℝ) e p ≤
+                        pddCurve pmin pnom (GenC07.pddDelta : ℝ) (GenC07.pddSlope : ℝ) e q) := by
   intro h
   obtain ⟨hδ, hs0, hs1, hδhi, hδlo⟩ := shipped_constants_real
   have := h 1 (103 / 100) 1 (by norm_num) (by norm_num) le_rfl (1 + (GenC07.pddDelta : ℝ)) 2 (by linarith)
@@ -382,25 +588,71 @@ theorem pdd_monotone_full_counterexample : ¬ PddMonotoneFull := by
   norm_num at hq this
   linarith
 
-/-- the partial statement that IS proved: bands do not overlap (`Preq − Pmin ≥ 2δ`), shipped δ and slope -/
-theorem pdd_monotone_partial (pmin pnom e : ℝ) (hband : 2 * (GenC07.pddDelta : ℝ) ≤ pnom - pmin) (he0 : 0 < e) (he1 : e ≤ 1)
-    (hs : (GenC07.pddSlope : ℝ) * (pnom - pmin) ≤ 3 * e) :
-    ∀ p q, p ≤ q → pddCurve pmin pnom (GenC07.pddDelta : ℝ) (GenC07.pddSlope : ℝ) e p ≤
-                    pddCurve pmin pnom (GenC07.pddDelta : ℝ) (GenC07.pddSlope : ℝ) e q := by
-  obtain ⟨hδ, hs0, -, -, -⟩ := shipped_constants_real
-  exact pdd_monotone hδ hband he0 he1 hs0 hs
+/-! ### 8. the rows and parameters are rebuilt when what they depend on changes (ModelUpdater registrations) -/
+
+/-- for every junction of the zoo `create_hydraulic_model` registered, for the Definition class that owns it, every attribute
+the PDD row / its parameters / the PDD mass balance / the leak row depend on — in particular `pressure_exponent` for BOTH
+`pdd_constraint` and `pdd_poly_coeffs_param` (REPAIRED), `minimum_pressure` and `required_pressure` for the value parameters
+AND the smoothing coefficients.  A dropped or mis-keyed `updater.add(node, attr, …)` breaks this. -/
+theorem updater_registers_pdd :
+    (GenC07.regs.all fun n => subsetB pddDeps n.regs && subsetB (balanceDeps true) n.regs && subsetB (leakDeps false) n.regs) = true ∧
+    GenC07.regs.map (·.name) = GenC07.zoo.map (·.name) := by
+  constructor <;> decide +kernel
+
+/-- **what a Definition reads, it is re-run for**: every node attribute the `build` of a PDD Definition really READS (recorded at
+run time) is registered for that Definition on every zoo junction; and the recorded reads are the documented ones -/
+theorem pdd_definitions_rebuilt_on_what_they_read :
+    (GenC07.regs.all (readsRegistered GenC07.defReads)) = true ∧
+    GenC07.defReads =
+      [⟨"pdd_mass_balance_constraint", false, ["_is_isolated", "leak_status"]⟩,
+       ⟨"pdd_constraint", false, ["_is_isolated", "pressure_exponent"]⟩,
+       ⟨"pmin_param", false, ["minimum_pressure"]⟩,
+       ⟨"pnom_param", false, ["required_pressure"]⟩,
+       ⟨"pdd_poly_coeffs_param", false, ["minimum_pressure", "pressure_exponent", "required_pressure"]⟩,
+       ⟨"elevation_param", false, ["elevation"]⟩] := by
+  constructor <;> decide +kernel
+
+/-- the consequence, for ANY registrations, any Definition and any two configurations: if every attribute the Definition reads
+is registered for it, then after the model update the Definition is built from values that agree with the CURRENT
+configuration on everything it reads — the row / parameter in the model is the one of the current attributes -/
+theorem updateDef_current (regs : List (String × String)) (cls : String) (vocab reads : List String) (built cur : Attrs)
+    (hv : ∀ a ∈ reads, a ∈ vocab) (hr : ∀ a ∈ reads, (a, cls) ∈ regs) :
+    ∀ a ∈ reads, updateDef regs cls vocab built cur a = cur a := by
+  intro a ha
+  unfold updateDef
+  split_ifs with h
+  · rfl
+  · by_contra hne
+    apply h
+    rw [List.any_eq_true]
+    refine ⟨a, ?_, by simpa using hr a ha⟩
+    simp only [changedAttrs, List.mem_filter, bne_iff_ne, ne_eq]
+    exact ⟨hv a ha, hne⟩
+
+/-- and it is needed: with `pressure_exponent` NOT registered for `pdd_constraint` (the unrepaired code) a changed exponent
+leaves the row built from the old one -/
+theorem updateDef_unregistered_stale :
+    let regs := [("_is_isolated", "pdd_constraint")]
+    let built : Attrs := fun a => if a = "pressure_exponent" then 5 else 0
+    let cur : Attrs := fun a => if a = "pressure_exponent" then 10 else 0
+    updateDef regs "pdd_constraint" ["_is_isolated", "pressure_exponent"] built cur "pressure_exponent" = 5 := by
+  decide
 
 /-! ### non-vacuity -/
 
-/-- the hypotheses of `pdd_monotone_partial` are satisfiable: WNTR's defaults `Pmin = 0`, `Preq = 0.07 m·…` style values,
-here `Pmin = 0`, `Preq = 20`, `e = 1/2` -/
-example : 2 * ((GenC07.pddDelta : ℚ) : ℝ) ≤ 20 - 0 ∧ (0 : ℝ) < 1 / 2 ∧ (1 / 2 : ℝ) ≤ 1 ∧
-    ((GenC07.pddSlope : ℚ) : ℝ) * (20 - 0) ≤ 3 * (1 / 2) := by
-  obtain ⟨-, -, h2, h1, -⟩ := shipped_constants_real
-  refine ⟨by linarith, by norm_num, by norm_num, by nlinarith⟩
+/-- the hypotheses of `pdd_full_statement` are satisfiable, also with overlapping shipped bands: WNTR's DEFAULT options
+`Pmin = 0`, `Preq = 0.07`, `e = 1/2` -/
+example : (0 : ℝ) < 7 / 100 ∧ (0 : ℝ) < 1 / 2 ∧ (1 / 2 : ℝ) ≤ 1 ∧
+    ((GenC07.pddSlope : ℚ) : ℝ) * (7 / 100 - 0) ≤ 3 * (1 / 2) ∧
+    effDeltaR ((GenC07.pddDelta : ℚ) : ℝ) 0 (7 / 100) = 7 / 200 := by
+  obtain ⟨-, -, h2, h1, h0⟩ := shipped_constants_real
+  refine ⟨by norm_num, by norm_num, by norm_num, by nlinarith, ?_⟩
+  unfold effDeltaR
+  rw [if_neg (by norm_num; linarith)]; norm_num
 
-/-- the zoo really contains non-isolated junctions with a row, and an isolated one without -/
-example : (GenC07.zoo.filter (fun z => z.row.isSome)).length = 9 ∧ (GenC07.zoo.filter (fun z => z.isolated)).length = 1 := by
+/-- the zoo really contains non-isolated junctions with a row (one of them with `Preq − Pmin < 2δ`), and an isolated one without -/
+example : (GenC07.zoo.filter (fun z => z.row.isSome)).length = 10 ∧ (GenC07.zoo.filter (fun z => z.isolated)).length = 1 ∧
+    (GenC07.zoo.filter (fun z => z.deltaVal != some GenC07.pddDelta && z.row.isSome)).length = 1 := by
   decide +kernel
 
 end Wntr.Rows
